@@ -347,8 +347,12 @@ func runWorkload(res *hx.Result, bin, tmp string, in wlInput) {
 			continue
 		}
 		seen[sig] = true
+		a, b := 0, 1
+		if r.funcs[1] < r.funcs[0] {
+			a, b = 1, 0
+		}
 		res.Fail(sig, fmt.Sprintf("DATA RACE (go race detector, workload %s seed %d): %s in %s (%s) vs %s in %s (%s)",
-			in.Workload, in.Seed, r.kinds[0], r.funcs[0], r.locs[0], r.kinds[1], r.funcs[1], r.locs[1]), in)
+			in.Workload, in.Seed, r.kinds[a], r.funcs[a], r.locs[a], r.kinds[b], r.funcs[b], r.locs[b]), in)
 	}
 	if strings.Contains(stderr, "fatal error: concurrent map") {
 		res.Fail("race:fatal-concurrent-map:"+in.Workload, "the Go runtime aborted the workload: "+firstLineWith(stderr, "fatal error:"), in)
